@@ -2,7 +2,6 @@ package hpacket
 
 import (
 	packettypes "github.com/bianjieai/tibc-go/modules/tibc/core/04-packet/types"
-	host "github.com/bianjieai/tibc-go/modules/tibc/core/24-host"
 	"github.com/bianjieai/tibc-go/zzverif/vp"
 )
 
@@ -33,7 +32,7 @@ func H_C09_send() {
 		vp.Reach("send accepted")
 		vp.Assert(p.Sequence == pre, "C09.1 accepted send carries exactly the next sequence")
 		vp.Assert(k.GetNextSequenceSend(ctx, p.SourceChain, p.DestinationChain) == pre+1, "C09.1 counter advanced by exactly one")
-		vp.Assert(sameBytes(k.GetPacketCommitment(ctx, p.SourceChain, p.DestinationChain, p.Sequence), packettypes.CommitPacket(p)), "C09.1 commitment at (src,dst,seq) is the hash of the data")
+		vp.Assert(sameBytes(k.GetPacketCommitment(ctx, p.SourceChain, p.DestinationChain, p.Sequence), refCommit(p.Data)), "C09.1 commitment at (src,dst,seq) is the hash of the data")
 		vp.Assert(p.SourceChain == w.self, "C09.3 only packets whose source is this chain are sent")
 		vp.Assert(hasClient(w, target), "C09.3 next hop (relay if named, else destination) has a client")
 		vp.Assert(len(p.Data) > 0 && p.Sequence != 0, "C09.3 empty data / zero sequence rejected")
@@ -48,8 +47,8 @@ func H_C09_send() {
 			vp.EventAttr(ctx, ev, 0, packettypes.AttributeKeySequence) == decimal(p.Sequence)),
 			"C09.1 the event announces the packet's six fields")
 		vp.Assert(onlyWrote(ctx, mark,
-			host.NextSequenceSendKey(p.SourceChain, p.DestinationChain),
-			host.PacketCommitmentKey(p.SourceChain, p.DestinationChain, p.Sequence)),
+			refNextSeqSendKey(p.SourceChain, p.DestinationChain),
+			refCommitmentKey(p.SourceChain, p.DestinationChain, p.Sequence)),
 			"C09.4 a send writes only its channel's counter and its own commitment")
 	} else {
 		vp.Reach("send rejected")
